@@ -9,6 +9,8 @@ EXTENDS Cluster, Json
 
 CONSTANTS MaxLen, WithBad, WithDup, GenDepth, Sim, Mixed, Burst,
           WithSplit, \* rows may have a node-to-node address (peer) that differs from the connect address
+          SchemaPlan,\* enumerated histories: refresh; keyspace metadata (un)available; then anything
+                     \* (in simulation: "keyspace metadata (un)available" is one more kind of step)
           LateEvents,\* enumerated histories end with one status event for any address (also addresses
                      \* of nodes that have just vanished or moved)
           Ordered    \* FALSE: events travel as frames, each handled on a goroutine of its own - a batch then
@@ -96,6 +98,8 @@ E0 == IF Len(hist) = 0 /\ ~Sim THEN {C0addr, C0peer, CanonAddrs[1], Priv(CanonAd
 \* a list that differs from the current truth (for refreshes that fail: nothing of it may be applied)
 Other == IF truth = <<>> THEN <<[id |-> CanonIds[1], addr |-> CanonAddrs[1], peer |-> CanonAddrs[1], inv |-> "ok"]>> ELSE <<>>
 
+SchemaSteps == \E m \in Pick({"error", "norows", "ok"}) : SchemaChange(truth) /\ Rec("schema", truth, "none", <<>>, m)
+
 RefreshSteps == \E l \in (IF Sim THEN PickList ELSE L0) : Refresh(l, "none") /\ Rec("refresh", l, "none", <<>>, "")
 
 MixedSteps ==
@@ -107,6 +111,7 @@ MixedSteps ==
   \/ Sim /\ \E b \in Pick({<<Ev("UP", a)>> : a \in EvA}) : \E l \in PickList : Events(l, b) /\ Rec("events", l, "none", b, "")
   \/ Burst > 0 /\ \E o \in Pick(0 .. 4) : \E l \in (IF Sim THEN PickList ELSE {truth}) :
         Events(l, BurstAt(o)) /\ Rec("burst", l, "none", BurstAt(o), "")
+  \/ SchemaPlan /\ Sim /\ SchemaSteps
   \/ \E a \in Pick(A0) : NodeFail(truth, a) /\ Rec("nodefail", truth, "none", <<>>, a)
   \/ \E a \in Pick(Addrs) : NodeRecover(truth, a) /\ Rec("noderecover", truth, "none", <<>>, a)
   \/ \E l \in (IF Sim THEN PickList ELSE {truth, Other}) : NodeRecover(l, C0addr) /\ Rec("noderecover", l, "none", <<>>, C0addr)
@@ -118,6 +123,8 @@ LateSteps == \E b \in {<<Ev(k, a)>> : k \in {"UP", "DOWN"}, a \in EvA} : Events(
 Next ==
   /\ Len(hist) < GenDepth
   /\ IF LateEvents /\ ~Sim /\ Len(hist) = GenDepth - 1 THEN LateSteps
+     ELSE IF SchemaPlan /\ ~Sim /\ Len(hist) = 0 THEN \E l \in {x \in CanonLists : Len(x) = MaxLen} : Refresh(l, "none") /\ Rec("refresh", l, "none", <<>>, "")
+     ELSE IF SchemaPlan /\ ~Sim /\ Len(hist) = 1 THEN SchemaSteps
      ELSE \/ RefreshSteps
           \/ Mixed /\ MixedSteps
 
